@@ -175,31 +175,35 @@ def run(prop, tier, seed):
 
         def keyfn(e, what):
             return what          # split below
-        p = os.path.join(work, "json.trace.json")
-        json.dump(ev, open(p, "w"), separators=(",", ":"))
-        r = tlc_or_die("TraceJson", cfg="TraceJson_%s.cfg" % prop, env={"TRACE_FILE": p}, timeout=7200)
-        c.add_tlc("TraceJson %s" % prop, r)
         # design facts tying the schema's value names to the library's published wording (exceptions listed exactly)
         c.add_tlc("MC_Json: the reference documents of JsonDoc.tla (every metric x value on a sparse and a dense background, 4 variants) satisfy the schema predicates and the C11 rules", tlc_or_die("MC_Json", workers=4, timeout=1800))
         c.add_tlc("MC_Internals: JSON value names = upper-cased descriptions up to the listed exceptions; display tables cover the standards' tables; lookup domain", tlc_or_die("MC_Internals", workers=1, timeout=600))
-        if r.distinct != 2 * len(ev):
-            raise MachineryError("TLC judged %d states for %d events" % (r.distinct, len(ev)))
-        for l in r.lines:
-            if not l.startswith("FAIL "):
-                continue
-            m = re.match(r"FAIL (\d+) (.*)", l)
-            e = ev[int(m.group(1)) - 1]
-            what = m.group(2).replace("\\", "")
-            if prop == "C10":
-                sv = what.split(" ")[1]
-                for clause in re.findall(r'"([^"]+)"', what):
-                    c.violation("C10|%s|%s" % (sv, clause), "as_json() of %s(%s) violates %s of cvss-v%s.json" % ("CVSS" + e["ver"], e["s"], clause, sv),
-                                {"ver": e["ver"], "s": e["s"], "clause": clause, "json": e["out"]["json"]["uf"]})
-            else:
-                clause = what.split(":")[0]
-                c.violation("C11|v%s|%s" % (e["ver"], clause), "%s for %s(%s)" % (what, "CVSS" + e["ver"], e["s"]),
-                            {"ver": e["ver"], "s": e["s"], "clause": what, "json": e["out"]["json"]})
-        os.remove(p)
+        from props.strings import CHUNK
+        chunk = max(1, CHUNK // 4)             # an event carries four documents
+        for k0 in range(0, len(ev), chunk):
+            part = ev[k0:k0 + chunk]
+            p = os.path.join(work, "json.trace.json")
+            json.dump(part, open(p, "w"), separators=(",", ":"))
+            r = tlc_or_die("TraceJson", cfg="TraceJson_%s.cfg" % prop, env={"TRACE_FILE": p}, timeout=7200)
+            c.add_tlc("TraceJson %s (events %d..%d)" % (prop, k0 + 1, k0 + len(part)), r)
+            if r.distinct != 2 * len(part):
+                raise MachineryError("TLC judged %d states for %d events" % (r.distinct, len(part)))
+            for l in r.lines:
+                if not l.startswith("FAIL "):
+                    continue
+                m = re.match(r"FAIL (\d+) (.*)", l)
+                e = part[int(m.group(1)) - 1]
+                what = m.group(2).replace("\\", "")
+                if prop == "C10":
+                    sv = what.split(" ")[1]
+                    for clause in re.findall(r'"([^"]+)"', what):
+                        c.violation("C10|%s|%s" % (sv, clause), "as_json() of %s(%s) violates %s of cvss-v%s.json" % ("CVSS" + e["ver"], e["s"], clause, sv),
+                                    {"ver": e["ver"], "s": e["s"], "clause": clause, "json": e["out"]["json"]["uf"]})
+                else:
+                    clause = what.split(":")[0]
+                    c.violation("C11|v%s|%s" % (e["ver"], clause), "%s for %s(%s)" % (what, "CVSS" + e["ver"], e["s"]),
+                                {"ver": e["ver"], "s": e["s"], "clause": what, "json": e["out"]["json"]})
+            os.remove(p)
         c.traces += len(ev)
         c.nontrivial = len(ev)
         c.rule = ("valid vectors (every metric x value x group shape, random spellings, zero-score and ND-only groups); per vector the four "
